@@ -145,6 +145,12 @@ Theorem C13_loggers_stateless_in_source : ob_loggers_stateless = true.
 Proof. exact ob_loggers_stateless_true. Qed.
 Print Assumptions C13_loggers_stateless_in_source.
 
+(* no unsynchronised package-level state: the translator's list of assignments to package-level variables of
+   mail / smtp / log (outside init and initialisers) contains only sync.Once- or mutex-protected ones *)
+Theorem C13_no_unsynchronised_package_state : ob_no_unsync_package_state = true.
+Proof. exact ob_no_unsync_package_state_true. Qed.
+Print Assumptions C13_no_unsynchronised_package_state.
+
 (* ownership, model side: an object only goroutine j's program touches is accessed by j alone, under every schedule *)
 Theorem C13_private_object_owner : forall (p0 : pool) (j : nat) (o : obj) (sched : list nat),
   (forall i, i <> j -> touches o (p0 i) = false) ->
